@@ -121,7 +121,13 @@ def make_inputs(desc, ds):
     names = {"face": "face", "Ydim": dY, "Xdim": dX}
     canon = ex + ["face", dY, dX]
     final = [names.get(d, d) for d in desc["order"]]
-    da = xr.DataArray(U, dims=canon).transpose(*final)
+    narrow = mode != "scalar" and desc["shuffle_seed"] % 5 == 2 and not np.isnan(U).any()
+    if narrow:
+        # the two components may be stored with different precision: the padded one in single precision (its whole-numbered
+        # values and the fill values are exact there), the partner in double precision with values single precision cannot
+        # hold - a halo cell cut from the partner holds the partner's value
+        V = V + 0.3
+    da = xr.DataArray(U.astype("float32") if narrow else U, dims=canon).transpose(*final)
     if mode == "scalar":
         return da, None, U, None, dY, dX, va, canon
     pY, pX = ("ys", "x") if mode == "u" else ("y", "xs")
